@@ -266,11 +266,11 @@ class Gen:
         return "%sdirective @%s%s on %s%s" % (
             desc, r.choice(DIR_NAMES), self.argument_defs(0.5), r.choice(["", "| "]), " | ".join(locs))
 
-    def document(self, dialect=None):
+    def document(self, dialect=None, max_defs=4):
         r = self.rng
         dialect = dialect or r.choice(["exec", "sdl", "mixed"])
         defs = []
-        for _ in range(r.randint(1, 4)):
+        for _ in range(r.randint(1, max_defs)):
             k = r.random()
             if dialect == "exec" or (dialect == "mixed" and k < 0.5):
                 defs.append(self.fragment() if r.random() < 0.3 else self.operation())
@@ -279,8 +279,8 @@ class Gen:
         return r.choice(["\n", "\n\n", " "]).join(defs)
 
 
-def gen_document(rng, strings="some", dialect=None, max_depth=3):
-    return Gen(rng, strings=strings, max_depth=max_depth).document(dialect)
+def gen_document(rng, strings="some", dialect=None, max_depth=3, max_defs=4):
+    return Gen(rng, strings=strings, max_depth=max_depth).document(dialect, max_defs=max_defs)
 
 
 # One document per node class family, used as fixed corpus by C18 and C03.
